@@ -51,6 +51,10 @@ func (c16) Gen(r *rand.Rand, tier string, run int) *core.Case {
 		actors = 1 + r.IntN(2)
 	}
 	c.Params["slow_ms"] = r.IntN(4)
+	if r.IntN(4) == 0 {
+		c.Params["broken"] = 1
+		c.Params["break_after"] = r.IntN(60)
+	}
 	if c.Batch == "" && r.IntN(6) == 0 {
 		// an implementation value lives twice: removed one way, added again,
 		// called, removed again (the same or another way), called
@@ -250,17 +254,53 @@ func (c16) Run(c *core.Case, env *core.Env) {
 		}
 		st.objs[0].proxies = append(st.objs[0].proxies, p)
 	}
+	var victim bus.Client
+	vpair := 0
+	if c.P("broken", 0) == 1 {
+		// a subscriber of every object, registered first, that becomes
+		// unreachable during the race: what the other subscribers are told
+		// must not depend on it
+		vpair = len(env.NW.Conns())
+		if victim, err = Connect("victim", "u", "p"); err != nil {
+			env.Violate("setup/connect", "%v", err)
+			return
+		}
+	}
 	for i := 0; i < c.P("objects", 2); i++ {
 		o := add(90, nil)
 		if o == nil {
 			env.Violate("setup/add", "adding an object failed")
 			return
 		}
+		if victim != nil {
+			vp, err := ProbeProxy(victim, w.ServiceID, o.id)
+			if err != nil {
+				env.Violate("setup/proxy", "%v", err)
+				return
+			}
+			_, v1, e1 := vp.SubscribeTick()
+			_, v2, e2 := vp.SubscribeTock()
+			if e1 != nil || e2 != nil {
+				env.Violate("setup/subscribe", "%v %v", e1, e2)
+				return
+			}
+			go func() {
+				for range v1 {
+				}
+			}()
+			go func() {
+				for range v2 {
+				}
+			}()
+		}
 		for k := 0; k < c.P("subscribe", 0); k++ {
 			subscribe(90, o, k)
 		}
 	}
 	env.S.Quiesce()
+	if victim != nil {
+		BreakWritesLater(env, env.NW.Conns()[vpair], c.P("break_after", 0))
+	}
 	by := map[int][]core.Op{}
 	var actors []int
 	for _, op := range c.Ops {
